@@ -100,6 +100,9 @@ NewEndpoint(cfg, isn, rnxt0, pwnd0, now) ==
       probeQ   |-> FALSE,      \* a size probe is queued or outstanding (nothing more is segmented meanwhile)
       \* bookkeeping
       txCount  |-> 0, rxCount |-> 0, synAcks |-> 0, lastRxAt |-> now, lastWire |-> now,
+      trans    |-> [on |-> FALSE, st |-> "", t |-> "syn", ackSyn |-> FALSE, ackFin |-> FALSE, seqNext |-> FALSE],
+                              \* the packet being processed and the state it met (C17.Transition)
+      finDesig |-> -1,         \* the number the endpoint designated for its answering FIN when it took the peer's FIN in
       eofDue   |-> 0,          \* the peer's FIN was taken in while a read was waiting (trace line)
       lastDataRxAt |-> -1,     \* when the last DATA / FIN packet was taken in
       lastEmitAt |-> -1,       \* when this endpoint last emitted a datagram (whatever its fate)
@@ -381,6 +384,7 @@ DispOutOfOrder(e, s, plen, now, line) ==
 DispDuplicate(e, now, line) == AckTrig(e, 0, TRUE, now, line)
 DispFinAccepted(e, s, now, line) ==
     LET e1 == [e EXCEPT !.rnxt = s, !.peerFin = s, !.drainDue = 0, !.idleWr = 0,
+                        !.finDesig = IF e.fin.seq >= 0 THEN e.fin.seq ELSE e.nxt,
                         \* C17 "answered with the endpoint's own FIN" once its data is out
                         \* (strictest precondition: everything written was transmitted and acknowledged)
                         !.finAnsDue = IF e.fin.seq < 0 /\ e.nextOff = e.wr /\ ~Outstanding(e) THEN line ELSE 0]
